@@ -275,13 +275,13 @@ class SymBackend(BackendBase):
             self.I.dict_setitem(d, k, v)
         return d
 
-    def uf(self, name, domains, ret="bool", fault=False):
+    def uf(self, name, domains, ret="bool", fault=False, fault_cls="HarnessFault"):
         ft = None
         if fault:
             ft = z3.Int("h_" + name + "_fault")
             self.ctx.assume(ft >= -1)
         u = self.I.make_ufunc("uf_" + name, len(domains), ret, fault=ft,
-                              fault_exc=self.classes["HarnessFault"], label=name)
+                              fault_exc=self.classes[fault_cls], label=name)
         self.by_oid[u.oid] = name
         self.objects[name] = u
         self.holes.append(("uf", name, u, [list(d) for d in domains], ft))
